@@ -8,6 +8,7 @@ import (
 	"os"
 	"sort"
 	"strings"
+	"verif/internal/vsrun"
 
 	"verif/internal/clitree"
 	"verif/internal/core"
@@ -234,8 +235,8 @@ type job struct {
 
 // Run executes C20.
 func Run(c *core.Check) {
-	c.Rule = "for each history (invocation of the real cmd/minify binary on a small tree: in-place for every media type and sizes 0 B..64 KiB+1 (thorough 1 MiB), failing minification, symlink/hard-link aliases, separate output, directory mirror, in-place directory, bundles onto an input, sync, preserve variants): a trace run records the N file-mutating system calls; then for EVERY k in 1..N a fresh tree is built and the process is killed right before operation k executes, and every write/copy operation is additionally torn at 1, n/2 and n-1 bytes; thorough adds fail@k with ENOSPC/EIO/EACCES. The disk state left behind must satisfy: every file written by the invocation holds its complete original, or <name>.bak does, or it holds the complete new output; files only read are unchanged. Non-trivial = a crash state that differs from both the initial and the final tree"
-	c.Assumptions = []string{"process kill only (page cache survives); kills inside system calls other than write are equivalent to before/after", "expected new output = content after an undisturbed run (its correctness is C19's business)", "sequential task order (-v or single task); the parallel worker pool is not enumerated"}
+	c.Rule = "for each history (invocation of the real cmd/minify binary on a small tree: in-place for every media type and sizes 0 B..64 KiB+1 (thorough 1 MiB), failing minification, symlink/hard-link aliases, separate output, directory mirror, in-place directory, bundles onto an input, sync, preserve variants): a trace run records the N file-mutating system calls; then for EVERY k in 1..N a fresh tree is built and the process is killed right before operation k executes, and every write/copy operation is additionally torn at 1, n/2 and n-1 bytes; thorough adds fail@k with ENOSPC/EIO/EACCES. The disk state left behind must satisfy: every file written by the invocation holds its complete original, or <name>.bak does, or it holds the complete new output; files only read are unchanged. Concurrent tasks: the tool is rebuilt with package os routed through a shim (go build -overlay) and 1, 2 (thorough 3) tasks from 7 kinds (in place css/js, separate output, sync copy, bundle onto an input, failing minification, in place through a link) run the real minify(Task) concurrently; every interleaving of their file system operations up to the preemption bound is explored, the invariant is evaluated before every disk-changing operation (torn writes included) and the final tree must equal the sequential one. Non-trivial = a crash state that differs from both the initial and the final tree"
+	c.Assumptions = []string{"process kill only (page cache survives); kills inside system calls other than write are equivalent to before/after", "expected new output = content after an undisturbed run (its correctness is C19's business)", "ptrace histories run tasks sequentially (-v or a single task); the worker pool is covered by the concurrent-tasks family: real minify(Task) bodies under the controlled scheduler, preemption-bounded; the channel that hands tasks to workers is not modelled (any assignment of tasks to workers is an interleaving of task bodies)"}
 	defer clitree.Cleanup()
 	cli, err := clitree.CLI()
 	if err != nil {
@@ -355,6 +356,10 @@ func Run(c *core.Check) {
 			c.Fail(core.Failure{Family: "crash-points", Input: h.Name + ": minify " + strings.Join(h.Args, " "), Config: cfg, Kind: kind, What: strings.Join(v, "; ") + " | operations so far: " + opsString(res.Ops), Order: i})
 		}
 	})
+	// the worker pool: the tool's own minify(Task) for 2 (thorough 3) tasks at a time under the
+	// controlled scheduler, every file system operation a scheduling point, the same invariant
+	// at every disk-changing operation of every interleaving
+	vsrun.ExploreCLI(c, "concurrent-tasks")
 }
 
 func Replay(f core.Failure) (string, string) {
